@@ -1437,11 +1437,58 @@ JUDGES = {
     'C20': [judge_c20],
 }
 
-def run_judges(prop, ops, impl):
+def wf_pattern(p):
+    """Mux.WfPattern (Spec/Table.lean): balanced, non-nested braces — the hypothesis of C02_resolve"""
+    inside = False
+    for b in p:
+        if b == 0x7b:
+            if inside:
+                return False
+            inside = True
+        elif b == 0x7d:
+            if not inside:
+                return False
+            inside = False
+    return not inside
+
+def judge_c02_lean_spec(ops, impl, model):
+    """the implementation's answer to a `serve` must be one of the outcomes the LEAN reference resolver (Spec.resolveAll,
+    the specification of theorem C02_resolve) admits: the following `spec-adm` line is answered by the compiled model only"""
+    bad = []
+    n = min(len(ops), len(impl), len(model))
+    routers_ill = {}
+    for i in range(n - 1):
+        t = ops[i].split()
+        if t and t[0] == 'handle' and not wf_pattern(decB(t[2])):
+            routers_ill[t[1]] = True
+        if not t or t[0] != 'serve' or not ops[i + 1].startswith('spec-adm ') or not model[i + 1].startswith('adm '):
+            continue
+        if t[1] in routers_ill or model[i] == 'unsupported' or not impl[i].startswith('call '):
+            continue
+        path = decB(t[3])
+        if path in (b'', b'*'):
+            continue
+        f = fields(impl[i])
+        adm = model[i + 1][4:]
+        if f['base'] == 'notFound':
+            if adm != '%-':
+                bad.append((i, 'implementation answers 404 but the Lean reference resolver admits %s' % adm[:120]))
+        elif f['node'] != '-':
+            got = f['node'] + '{' + f['params'] + '}'
+            if got not in adm.split('|'):
+                bad.append((i, 'implementation resolves to %s, not admitted by the Lean reference resolver (%s)' % (got[:100], adm[:120])))
+    return bad
+
+JUDGES_WITH_MODEL = {'C02': [judge_c02_lean_spec]}
+
+def run_judges(prop, ops, impl, model=None):
     out = []
     for j in JUDGES.get(prop, []):
         try:
             out += j(ops, impl)
         except RecursionError:
             pass
+    if model is not None:
+        for j in JUDGES_WITH_MODEL.get(prop, []):
+            out += j(ops, impl, model)
     return sorted(set(out))
